@@ -411,6 +411,11 @@ func runC14(c *fw.Ctx) {
 			}
 		})
 	}
+	// (2b) values sharing storage with a common parent
+	ra := c.Rand("aliasing")
+	for i := 0; i < c.PerShard(c.Pick(8000, 200000)); i++ {
+		c14Aliasing(c, env, ra, fmt.Sprintf("alias-%d", i))
+	}
 	// (3) equal values built along different construction paths
 	r2 := c.Rand("paths")
 	o.Symbols = true
@@ -454,6 +459,71 @@ func runC14(c *fw.Ctx) {
 	}
 }
 
+// c14Aliasing: values derived from one parent by operations that share (or re-create) its backing storage; every
+// pair is compared through = and judged by the canonical forms of the values actually produced.
+func c14Aliasing(c *fw.Ctx, env types.EnvType, r *rand.Rand, id string) {
+	o := gen.DefaultOpts()
+	o.PlainKeys, o.MaxStr, o.MaxDepth, o.MaxWidth = true, 3, 2, 5
+	var base *canon.Node
+	for {
+		base = gen.Value(r, o, 0)
+		if base.K == canon.Vec || base.K == canon.List || base.K == canon.Map || base.K == canon.Set {
+			break
+		}
+	}
+	c.Case(id, "values derived from "+canon.Render(base), func() {
+		e := hx.Sub(env)
+		if out := hx.EvalText(context.Background(), "(def base (quote "+canon.Render(base)+"))", e); out.Err != nil || out.Panicked {
+			return
+		}
+		var srcs []string
+		switch base.K {
+		case canon.Vec, canon.List:
+			n := len(base.L)
+			srcs = []string{"base", "(vec base)", "(seq base)", "(rest base)", "(concat base)", "(apply list base)", "(with-meta base {:m 1})", "(take 2 base)", "(drop 1 base)", "(cons 0 base)", "(rest (cons 0 base))", "(map identity base)", "(apply vector base)"}
+			if base.K == canon.Vec {
+				for k := 0; k <= n; k++ {
+					srcs = append(srcs, fmt.Sprintf("(subvec base 0 %d)", k), fmt.Sprintf("(subvec base %d)", k))
+				}
+				if n > 0 {
+					srcs = append(srcs, fmt.Sprintf("(conj (subvec base 0 %d) (nth base %d))", n-1, n-1), "(assoc base 0 (nth base 0))", fmt.Sprintf("(subvec (conj base 9) 0 %d)", n))
+				}
+			}
+		case canon.Map:
+			srcs = []string{"base", "(merge base {})", "(merge {} base)", "(dissoc (assoc base :zz 1) :zz)", "(with-meta base {:m 1})", "(assoc base :zz nil)", "(conj base :zz nil)", "(rename-keys base {})", "(dissoc base :a)", "(apply hash-map (apply concat (map (fn (k) (list k (get base k))) (keys base))))"}
+		case canon.Set:
+			srcs = []string{"base", "(set (seq base))", "(dissoc (conj base :zz) :zz)", "(with-meta base {:m 1})", "(conj base :zz)", "(set (vec base))"}
+		}
+		var vals []types.MalType
+		var kept []string
+		for _, src := range srcs {
+			out := hx.EvalText(context.Background(), src, e)
+			if out.Err != nil || out.Panicked {
+				continue
+			}
+			vals = append(vals, out.Val)
+			kept = append(kept, src)
+		}
+		for x := range vals {
+			for y := range vals {
+				a, b := canon.FromGo(vals[x]), canon.FromGo(vals[y])
+				res, err, p, msg := c14Eq(env, vals[x], vals[y])
+				c.Count("pairs", 1)
+				c.Count("eq_calls", 1)
+				c.Count("aliasing_pairs", 1)
+				want := canon.LispEqual(a, b)
+				if p || err != nil || res != want {
+					c.Violate(fw.Violation{Key: fmt.Sprintf("shared-structure:%s:got-%v", c14KindPair(a, b), res), What: fmt.Sprintf("(= %s %s) with base %s is %v (err %v %s) but the values are %s and %s", kept[x], kept[y], canon.Render(base), res, err, msg, canon.Render(a), canon.Render(b))})
+					return
+				}
+				if want {
+					c.Count("equal_pairs", 1)
+				}
+			}
+		}
+	})
+}
+
 func init() {
 	fw.Register(&fw.Property{
 		ID:     "C14",
@@ -466,6 +536,7 @@ func init() {
 				// equal fraction floor is applied to the mutation part, see counters
 			}
 			m.Floor("transitive_premises_true", 100)
+			m.Floor("aliasing_pairs", 10000)
 			m.Extra["mutation_kinds"] = m.CountsWithPrefix("mutation.")
 			m.Extra["construction_paths"] = m.CountsWithPrefix("path.")
 			m.Extra["exhaustive"] = true
